@@ -201,7 +201,7 @@ Qed.
 
 (** * Part B - the parent loop from a quiet state *)
 
-Definition cleanb (b : behaviour) : bool := match b with BAnswersLate | BDiesBefore => false | _ => true end.
+Definition cleanb (b : behaviour) : bool := match b with BAnswersLate | BDiesBefore | BDrops => false | _ => true end.
 Definition clean_script (s : list (rid * behaviour)) : Prop := forallb (fun x => cleanb (snd x)) s = true.
 Definition maxr (c : cfg) : nat := Nat.max 1 (rate c).
 
@@ -238,8 +238,8 @@ Definition quiet (c : cfg) (s : st) : Prop :=
   term s = false /\ oldok c (old s) /\
   match cur s with
   | Some w => w_stat w = WIdle /\ length (w_served w) = age s /\ 1 <= age s /\ age s <= maxr c
-              /\ tasks (sh s) = [] /\ results (sh s) = []
-  | None => fresh_queues c = true \/ (tasks (sh s) = [] /\ results (sh s) = [])
+              /\ tasks (sh s) = [] /\ results (sh s) = [] /\ rlock (sh s) = false
+  | None => fresh_queues c = true \/ (tasks (sh s) = [] /\ results (sh s) = [] /\ rlock (sh s) = false)
   end.
 
 Lemma oldok_dead : forall c o, oldok c o -> Forall dead o.
@@ -267,10 +267,10 @@ Lemma get_unfold_cur : forall q w o a tm clk ps, Forall dead o ->
   get (St q (Some w) o a tm clk ps) =
   let (w1, q1) := wturn (length o) clk tm w q in
   match results q1 with
-  | r :: rs => Got r (St (Shared (tasks q1) rs (events q1)) (Some w1) o a tm clk (bump ps))
+  | r :: rs => Got r (St (Shared (tasks q1) rs (events q1) (rlock q1)) (Some w1) o a tm clk (bump ps))
   | [] => let (w2, q2) := wturn (length o) (S clk) tm w1 q1 in
           match results q2 with
-          | r :: rs => Got r (St (Shared (tasks q2) rs (events q2)) (Some w2) o a tm (S clk) (bump ps))
+          | r :: rs => Got r (St (Shared (tasks q2) rs (events q2) (rlock q2)) (Some w2) o a tm (S clk) (bump ps))
           | [] => Empty (St q2 (Some w2) o a tm (S clk) (bump ps))
           end
   end.
@@ -304,9 +304,9 @@ Definition stuckw (w : worker) (q : shared) (tm : bool) : Prop :=
 
 Lemma wturn_stuck : forall pid clk tm w q, stuckw w q tm -> wturn pid clk tm w q = (w, q).
 Proof.
-  intros pid clk tm [ws sv] [ts rs ev] H. unfold stuckw in H. simpl in H. unfold wturn. simpl.
+  intros pid clk tm [ws sv] [ts rs ev lk] H. unfold stuckw in H. simpl in H. unfold wturn. simpl.
   destruct ws; try reflexivity; try contradiction.
-  destruct H as [H1 H2]. simpl in H1. subst. reflexivity.
+  destruct H as [H1 H2]. simpl in H1. subst. unfold idle_turn. simpl. destruct lk; reflexivity.
 Qed.
 
 Lemma get_stuck : forall q w o a tm clk ps, Forall dead o -> stuckw w q tm -> results q = [] ->
@@ -336,17 +336,17 @@ Proof.
 Qed.
 
 Lemma wturn_busy_done : forall pid clk ready r sv ev, ready <= clk ->
-  wturn pid clk false (Worker (WBusy ready r) sv) (Shared [] [] ev) = (Worker WIdle sv, Shared [] [r] ev).
+  wturn pid clk false (Worker (WBusy ready r) sv) (Shared [] [] ev false) = (Worker WIdle sv, Shared [] [r] ev false).
 Proof.
   intros. unfold wturn. cbn [w_stat]. replace (ready <=? clk) with true by (symmetry; apply Nat.leb_le; lia). reflexivity.
 Qed.
 
 Lemma wait_busy : forall T start ev r sv o a ready, Forall dead o ->
   forall fuel clk ps, clk < ready -> start <= clk -> fuel + (clk - start) = S T ->
-  wait fuel T start (St (Shared [] [] ev) (Some (Worker (WBusy ready r) sv)) o a false clk ps) =
+  wait fuel T start (St (Shared [] [] ev false) (Some (Worker (WBusy ready r) sv)) o a false clk ps) =
   if ready - start <=? S T
-  then WGot r (St (Shared [] [] ev) (Some (Worker WIdle sv)) o a false ready (bumpn (ready - clk) ps))
-  else WTimedOut (St (Shared [] [] ev) (Some (Worker (WBusy ready r) sv)) o a false (start + S T) (bumpn fuel ps)).
+  then WGot r (St (Shared [] [] ev false) (Some (Worker WIdle sv)) o a false ready (bumpn (ready - clk) ps))
+  else WTimedOut (St (Shared [] [] ev false) (Some (Worker (WBusy ready r) sv)) o a false (start + S T) (bumpn fuel ps)).
 Proof.
   intros T start ev r sv o a ready Ho. induction fuel as [|f IH]; intros clk ps H0 H1 H2.
   - simpl. replace (clk - start <=? T) with false by (symmetry; apply Nat.leb_gt; lia).
@@ -355,7 +355,7 @@ Proof.
   - rewrite wait_S. cbn [clock]. replace (clk - start <=? T) with true by (symmetry; apply Nat.leb_le; lia).
     rewrite get_unfold_cur by assumption. rewrite wturn_busy_wait by assumption. cbn [results].
     destruct (Nat.le_gt_cases ready (S clk)) as [E|E].
-    + rewrite wturn_busy_done by assumption. cbn [results tasks events].
+    + rewrite wturn_busy_done by assumption. cbn [results tasks events rlock].
       replace (ready - start <=? S T) with true by (symmetry; apply Nat.leb_le; lia).
       replace (ready - clk) with 1 by lia.
       replace (S clk) with ready by lia. reflexivity.
@@ -366,7 +366,7 @@ Proof.
 Qed.
 
 Definition readyst (ev : list event) (sv : list rid) (o : list worker) (a clk : nat) (ps : list nat) : st :=
-  St (Shared [] [] ev) (Some (Worker WIdle sv)) o a false clk ps.
+  St (Shared [] [] ev false) (Some (Worker WIdle sv)) o a false clk ps.
 
 Lemma le_maxr : forall c, 1 <= maxr c.
 Proof. intros. unfold maxr. lia. Qed.
@@ -376,9 +376,9 @@ Lemma create_quiet : forall c s, quiet c s ->
     /\ oldok c o /\ S (length sv) = a /\ a <= maxr c
     /\ (cur s = None -> sv = [] /\ o = old s).
 Proof.
-  intros c [[ts rs ev] cu o a tm clk ps]. unfold quiet. simpl. intros (Htm & Ho & Hc). subst tm.
+  intros c [[ts rs ev lk] cu o a tm clk ps]. unfold quiet. simpl. intros (Htm & Ho & Hc). subst tm.
   destruct cu as [[ws sv]|]; simpl in Hc.
-  - destruct Hc as (H1 & H2 & H3 & H4 & H5 & H6). subst ws ts rs.
+  - destruct Hc as (H1 & H2 & H3 & H4 & H5 & H6 & H7). subst ws ts rs lk.
     unfold create_or_recycle. simpl. destruct (rate c <=? a) eqn:R.
     + unfold recycle. simpl. unfold wturn, idle_turn, forget. simpl.
       exists (EStart (S (length o)) :: ETerminated (length o) :: ev), [], (Worker (WDead DTerminated) sv :: o), 1.
@@ -388,8 +388,8 @@ Proof.
       split; [exact Ho|]. split; [lia|]. split; [unfold maxr; lia|discriminate].
   - unfold create_or_recycle. simpl.
     exists (EStart (length o) :: ev), [], o, 1.
-    assert (Q : (if fresh_queues c then Shared [] [] ev else Shared ts rs ev) = Shared [] [] ev).
-    { destruct Hc as [Hc|[Hc1 Hc2]]; [rewrite Hc; reflexivity|]. subst. destruct (fresh_queues c); reflexivity. }
+    assert (Q : (if fresh_queues c then Shared [] [] ev false else Shared ts rs ev lk) = Shared [] [] ev false).
+    { destruct Hc as [Hc|[Hc1 [Hc2 Hc3]]]; [rewrite Hc; reflexivity|]. subst. destruct (fresh_queues c); reflexivity. }
     rewrite Q. simpl. split; [reflexivity|]. split; [exact Ho|]. split; [reflexivity|]. split; [apply le_maxr|auto].
 Qed.
 
@@ -412,7 +412,7 @@ Definition post (c : cfg) (l : rid) (b : behaviour) (sv : list rid) (o : list wo
   /\ (fate c b = None -> cur s' <> None) /\ (fate c b <> None -> cur s' = None).
 
 Ltac start_step Hd :=
-  unfold step_of, put_task, readyst; cbn [sh cur old age term clock polls tasks results events fst snd app];
+  unfold step_of, put_task, readyst; cbn [sh cur old age term clock polls tasks results events rlock fst snd app];
   rewrite wait_S; cbn [clock]; rewrite Nat.sub_diag; cbn [Nat.leb];
   rewrite get_unfold_cur by exact Hd;
   unfold wturn at 1; cbn [w_stat]; unfold idle_turn; cbn [serve wact_of t_beh t_fired t_id took w_served tasks results events app].
@@ -423,14 +423,14 @@ Lemma step_answer : forall c l b ev sv o a clk ps,
   exists s', step_of c (l, b) (readyst ev sv o a clk ps) = IYield (single c (l, b)) s' /\ post c l b sv o clk s'.
 Proof.
   intros c l b ev sv o a clk ps Ho Ha Hm Hw Hf Hc Hcl. pose proof (oldok_dead _ _ Ho) as Hd.
-  unfold step_of, put_task, readyst. cbn [sh cur old age term clock polls tasks results events fst snd app].
+  unfold step_of, put_task, readyst. cbn [sh cur old age term clock polls tasks results events rlock fst snd app].
   rewrite wait_S. cbn [clock]. rewrite Nat.sub_diag. cbn [Nat.leb].
   rewrite get_unfold_cur by exact Hd.
-  unfold wturn at 1. cbn [w_stat]. unfold idle_turn. cbn [tasks results events w_served]. cbn [serve]. rewrite Hw.
-  unfold took. cbn [serve w_served t_id results tasks events app].
+  unfold wturn at 1. cbn [w_stat]. unfold idle_turn. cbn [tasks results events rlock w_served]. cbn [serve]. rewrite Hw.
+  unfold took. cbn [serve w_served t_id results tasks events rlock app].
   eexists. split.
   - unfold single. cbn [fst snd]. rewrite Hf. reflexivity.
-  - unfold post, quiet. cbn [sh cur old age term clock polls tasks results events w_stat w_served workers].
+  - unfold post, quiet. cbn [sh cur old age term clock polls tasks results events rlock w_stat w_served workers].
     rewrite Hc, Hf. repeat split; auto; try lia; try discriminate.
     + rewrite app_length. simpl. lia.
     + eexists. split; [reflexivity|]. intros _. reflexivity.
@@ -438,11 +438,11 @@ Proof.
 Qed.
 
 Ltac open_step Hd :=
-  unfold step_of, put_task, readyst; cbn [sh cur old age term clock polls tasks results events fst snd app];
+  unfold step_of, put_task, readyst; cbn [sh cur old age term clock polls tasks results events rlock fst snd app];
   rewrite wait_S; cbn [clock]; rewrite Nat.sub_diag; cbn [Nat.leb];
   rewrite get_unfold_cur by exact Hd;
-  unfold wturn at 1; cbn [w_stat]; unfold idle_turn; cbn [tasks results events w_served]; cbn [serve wact_of t_beh t_fired t_id];
-  unfold took; cbn [serve w_served t_id results tasks events app].
+  unfold wturn at 1; cbn [w_stat]; unfold idle_turn; cbn [tasks results events rlock w_served]; cbn [serve wact_of t_beh t_fired t_id];
+  unfold took; cbn [serve w_served t_id results tasks events rlock app].
 
 Lemma step_exits : forall c l ev sv o a clk ps,
   oldok c o -> S (length sv) = a -> a <= maxr c ->
@@ -452,7 +452,7 @@ Proof.
   open_step Hd.
   rewrite wturn_dead by reflexivity. cbn [results]. unfold cur_alive, forget. cbn [cur alive w_stat sh old age term clock polls].
   eexists. split; [reflexivity|].
-  unfold post, quiet. cbn [sh cur old age term clock polls tasks results events w_stat w_served workers cost fate cleanb].
+  unfold post, quiet. cbn [sh cur old age term clock polls tasks results events rlock w_stat w_served workers cost fate cleanb].
   repeat split; auto; try lia; try discriminate.
   - constructor; [|exact Ho]. cbn [alive w_stat w_served]. split; [reflexivity|]. rewrite app_length. simpl. lia.
   - eexists. split; [reflexivity|]. intros _. reflexivity.
@@ -467,7 +467,7 @@ Proof.
   open_step Hd.
   rewrite wturn_dead by reflexivity. cbn [results]. unfold cur_alive, forget. cbn [cur alive w_stat sh old age term clock polls].
   eexists. split; [reflexivity|].
-  unfold post, quiet. cbn [sh cur old age term clock polls tasks results events w_stat w_served workers cost fate cleanb].
+  unfold post, quiet. cbn [sh cur old age term clock polls tasks results events rlock w_stat w_served workers cost fate cleanb].
   repeat split; auto; try lia; try discriminate.
   - constructor; [|exact Ho]. cbn [alive w_stat w_served]. split; [reflexivity|]. lia.
   - eexists. split; [reflexivity|]. intros X. discriminate.
@@ -480,18 +480,18 @@ Proof. reflexivity. Qed.
 Lemma step_stuck : forall c l b ev sv o a clk ps w1 h,
   oldok c o -> S (length sv) = a -> a <= maxr c ->
   (cleanb b = true \/ fresh_queues c = true) ->
-  serve (length o) clk (Worker WIdle sv) [Task l b false] [] ev = (Worker w1 (sv ++ [l]), Shared [] [] ev) ->
+  serve (length o) clk (Worker WIdle sv) [Task l b false] [] ev = (Worker w1 (sv ++ [l]), Shared [] [] ev false) ->
   (w1 = WIdle /\ h = None \/ w1 = WHung h) ->
-  (h <> None -> cleanb b = false) ->
+  (h <> None -> cleanb b = false) -> (w1 = WIdle -> cleanb b = false) ->
   fate c b = Some MTimeout -> cost c b = S (timeout c) ->
   exists s', step_of c (l, b) (readyst ev sv o a clk ps) = IYield (single c (l, b)) s' /\ post c l b sv o clk s'.
 Proof.
-  intros c l b ev sv o a clk ps w1 h Ho Ha Hm Hcl Hs Hw Hh Hf Hc. pose proof (oldok_dead _ _ Ho) as Hd.
-  unfold step_of, put_task, readyst. cbn [sh cur old age term clock polls tasks results events fst snd app].
+  intros c l b ev sv o a clk ps w1 h Ho Ha Hm Hcl Hs Hw Hh Hi Hf Hc. pose proof (oldok_dead _ _ Ho) as Hd.
+  unfold step_of, put_task, readyst. cbn [sh cur old age term clock polls tasks results events rlock fst snd app].
   rewrite wait_S. cbn [clock]. rewrite Nat.sub_diag. cbn [Nat.leb].
   rewrite get_unfold_cur by exact Hd.
-  unfold wturn at 1. cbn [w_stat]. unfold idle_turn. cbn [tasks results events w_served]. rewrite Hs. cbn [results].
-  assert (St1 : stuckw (Worker w1 (sv ++ [l])) (Shared [] [] ev) false).
+  unfold wturn at 1. cbn [w_stat]. unfold idle_turn. cbn [tasks results events rlock w_served]. rewrite Hs. cbn [results].
+  assert (St1 : stuckw (Worker w1 (sv ++ [l])) (Shared [] [] ev false) false).
   { unfold stuckw. cbn [w_stat]. destruct Hw as [[Hw _]|Hw]; subst w1; cbn; auto. }
   assert (Al : alive (Worker w1 (sv ++ [l])) = true).
   { unfold alive. cbn [w_stat]. destruct Hw as [[Hw _]|Hw]; subst w1; reflexivity. }
@@ -501,21 +501,23 @@ Proof.
   eexists. split; [reflexivity|].
   unfold post. rewrite Hc, Hf.
   destruct Hw as [[Hw Hn]|Hw]; subst w1.
-  - subst h. unfold handle_timeout, forget. cbn [sh cur old age term clock polls tasks results events w_stat w_served].
-    unfold quiet. cbn [sh cur old age term clock polls tasks results events w_stat w_served workers].
+  - subst h. assert (Hb : cleanb b = false) by (apply Hi; reflexivity).
+    destruct Hcl as [Hcl|Hcl]; [rewrite Hcl in Hb; discriminate|].
+    unfold handle_timeout, forget. cbn [sh cur old age term clock polls tasks results events rlock w_stat w_served].
+    unfold quiet. cbn [sh cur old age term clock polls tasks results events rlock w_stat w_served workers].
     repeat split; auto; try lia; try discriminate.
     + constructor; [|exact Ho]. cbn [alive w_stat w_served]. split; [reflexivity|]. rewrite app_length. simpl. lia.
-    + eexists. split; [reflexivity|]. intros _. reflexivity.
+    + eexists. split; [reflexivity|]. intros X. rewrite X in Hb. discriminate.
   - destruct h as [r|].
     + assert (Hb : cleanb b = false) by (apply Hh; discriminate).
       destruct Hcl as [Hcl|Hcl]; [rewrite Hcl in Hb; discriminate|].
-      unfold handle_timeout, forget. cbn [sh cur old age term clock polls tasks results events w_stat w_served].
-      unfold quiet. cbn [sh cur old age term clock polls tasks results events w_stat w_served workers].
+      unfold handle_timeout, forget. cbn [sh cur old age term clock polls tasks results events rlock w_stat w_served].
+      unfold quiet. cbn [sh cur old age term clock polls tasks results events rlock w_stat w_served workers].
       repeat split; auto; try lia; try discriminate.
       * constructor; [|exact Ho]. cbn [alive w_stat w_served]. split; [reflexivity|]. rewrite app_length. simpl. lia.
       * eexists. split; [reflexivity|]. intros X. rewrite X in Hb. discriminate.
-    + unfold handle_timeout, forget. cbn [sh cur old age term clock polls tasks results events w_stat w_served].
-      unfold quiet. cbn [sh cur old age term clock polls tasks results events w_stat w_served workers].
+    + unfold handle_timeout, forget. cbn [sh cur old age term clock polls tasks results events rlock w_stat w_served].
+      unfold quiet. cbn [sh cur old age term clock polls tasks results events rlock w_stat w_served workers].
       repeat split; auto; try lia; try discriminate.
       * constructor; [|exact Ho]. cbn [alive w_stat w_served]. split; [reflexivity|]. rewrite app_length. simpl. lia.
       * eexists. split; [reflexivity|]. intros _. reflexivity.
@@ -530,9 +532,9 @@ Proof.
   open_step Hd.
   destruct d as [|d].
   - (* answer within the first poll *)
-    rewrite wturn_busy_done by lia. cbn [results tasks events].
+    rewrite wturn_busy_done by lia. cbn [results tasks events rlock].
     eexists. split; [reflexivity|].
-    unfold post, quiet. cbn [sh cur old age term clock polls tasks results events w_stat w_served workers fate cleanb].
+    unfold post, quiet. cbn [sh cur old age term clock polls tasks results events rlock w_stat w_served workers fate cleanb].
     replace (cost c (BSlow 1)) with 1 by (unfold cost; destruct (timeout c); reflexivity).
     cbn [Nat.leb]. repeat split; auto; try lia; try discriminate.
     + rewrite app_length. simpl. lia.
@@ -544,7 +546,7 @@ Proof.
     unfold single. cbn [fst snd fate].
     destruct (S (S d) <=? S (timeout c)) eqn:E.
     + apply Nat.leb_le in E. eexists. split; [reflexivity|].
-      unfold post, quiet. cbn [sh cur old age term clock polls tasks results events w_stat w_served workers fate cleanb].
+      unfold post, quiet. cbn [sh cur old age term clock polls tasks results events rlock w_stat w_served workers fate cleanb].
       replace (S (S d) <=? S (timeout c)) with true by (symmetry; apply Nat.leb_le; lia).
       replace (cost c (BSlow (S (S d)))) with (S (S d)) by (unfold cost; lia).
       repeat split; auto; try lia; try discriminate.
@@ -552,8 +554,8 @@ Proof.
       * eexists. split; [reflexivity|]. intros _. reflexivity.
       * intros X. contradiction.
     + apply Nat.leb_gt in E. eexists. split; [reflexivity|].
-      unfold handle_timeout, forget. cbn [sh cur old age term clock polls tasks results events w_stat w_served].
-      unfold post, quiet. cbn [sh cur old age term clock polls tasks results events w_stat w_served workers fate cleanb].
+      unfold handle_timeout, forget. cbn [sh cur old age term clock polls tasks results events rlock w_stat w_served].
+      unfold post, quiet. cbn [sh cur old age term clock polls tasks results events rlock w_stat w_served workers fate cleanb].
       replace (S (S d) <=? S (timeout c)) with false by (symmetry; apply Nat.leb_gt; lia).
       replace (cost c (BSlow (S (S d)))) with (S (timeout c)) by (unfold cost; lia).
       repeat split; auto; try lia; try discriminate.
@@ -574,12 +576,12 @@ Proof.
   - apply step_answer; auto.
   - apply step_answer; auto.
   - apply step_exits; auto.
-  - apply (step_stuck c l BHangs ev sv o a clk ps (WHung None) None); auto. intros X; contradiction.
+  - apply (step_stuck c l BHangs ev sv o a clk ps (WHung None) None); auto; [intros X; contradiction|discriminate].
   - apply (step_stuck c l BAnswersLate ev sv o a clk ps (WHung (Some (l, play BAnswersLate))) (Some (l, play BAnswersLate))); auto.
   - destruct d.
     + apply step_answer; auto.
     + apply step_slow; auto.
-  - apply (step_stuck c l BDrops ev sv o a clk ps WIdle None); auto. intros X; contradiction.
+  - apply (step_stuck c l BDrops ev sv o a clk ps WIdle None); auto.
   - destruct Hcl as [Hcl|Hcl]; [discriminate|]. apply step_dies_before; auto.
 Qed.
 
@@ -876,6 +878,16 @@ Lemma stale_task_witness :
     /\ length (results (sh s1)) = 1.
 Proof. eexists. split; [vm_compute; reflexivity|reflexivity]. Qed.
 
+(** a worker killed while idle leaves the task queue's read lock held: every later recording times out *)
+Lemma lock_held_witness :
+  let c := cfg_legacy 5 2 in
+  let s := [(1, BEqual); (2, BDrops); (3, BEqual); (4, BDifferent)] in
+  exists s1, run_dedicated c s =
+    ([Cmp 1 Equal MCmp (Some 1) false false TFalse TFalse;
+      failure_cmp 2 MTimeout; failure_cmp 3 MTimeout; failure_cmp 4 MTimeout], Completed, s1)
+    /\ rlock (sh s1) = true /\ length (tasks (sh s1)) = 2.
+Proof. eexists. split; [vm_compute; reflexivity|]. split; reflexivity. Qed.
+
 (** after a late answer the parent is one recording ahead of its worker: the recycle joins a worker that hangs *)
 Lemma late_answer_blocks_witness :
   let c := cfg_legacy 1 2 in
@@ -905,7 +917,7 @@ Proof. vm_compute. eexists. split; [left; reflexivity|]. split; reflexivity. Qed
 
 Definition demo_cfg : cfg := Cfg 2 2 true false.
 Definition demo_script : list (rid * behaviour) :=
-  [(1, BEqual); (2, BHangs); (3, BExits); (4, BExtractorRaises); (5, BSlow 3); (6, BSlow 4); (7, BDrops);
+  [(1, BEqual); (2, BHangs); (3, BExits); (4, BExtractorRaises); (5, BSlow 3); (6, BSlow 4);
    (8, BBare Fixed); (9, BPlayerRaises); (2, BHangs); (10, BDifferent)].
 
 Lemma demo_clean : clean_script demo_script.
@@ -913,7 +925,7 @@ Proof. reflexivity. Qed.
 
 Lemma demo_run : fst (run_dedicated demo_cfg demo_script) = (map (single demo_cfg) demo_script, Completed)
   /\ map verdict (map (single demo_cfg) demo_script) =
-     [Equal; EqualizerFailure; EqualizerFailure; EqualizerFailure; Equal; EqualizerFailure; EqualizerFailure; Fixed;
+     [Equal; EqualizerFailure; EqualizerFailure; EqualizerFailure; Equal; EqualizerFailure; Fixed;
       EqualizerFailure; EqualizerFailure; Different].
 Proof. split; vm_compute; reflexivity. Qed.
 
